@@ -1,23 +1,19 @@
 import Pko.Util
 import Pko.Model.Archive
 import Pko.Model.ArchiveSpec
-/-! Line driver for C08 (a): `model` prints the ordered client writes of one pass of the
-ObjectDeployment controller's archive logic (same format as the Go harness); `monitor` evaluates
-the property's sentence (`ArchiveSpec.verdict`) on the write list the REAL code produced. -/
-namespace Pko.Drv.C08
-open Lean Pko.Model.Archive
+import Pko.Model.ArchiveHist
+import Pko.Drv.HistCommon
+/-! Line driver for C08 (a).
 
-/-- One revision as written by the harness; its name (`id`) is its position in `revs`. -/
-structure JRev where
-  rev : Int
-  av : Bool                     -- Available condition True
-  sp : Bool                     -- Paused condition True
-  lc : String                   -- "A" | "P" | "X"
-  pbp : Bool                    -- paused-by-parent annotation
-  co : Option (List Nat)        -- status.controllerOf keys, null = nil slice
-  obj : List Nat                -- keys of spec.phases objects
-  hm : Bool                     -- hash annotation matches
-  deriving FromJson
+* stream `decide` (scenario = one pass): `model` prints the ordered client writes of one pass of the
+  ObjectDeployment controller's archive logic (same format as the Go harness); `monitor` evaluates
+  the property's sentence (`ArchiveSpec.verdict`) on the write list the REAL code produced.
+* stream `hist` (scenario = multi-round history, recognised by its `ops` field): `model` prints the
+  trace of `ArchiveHist.observe`; `monitor` evaluates the same `ArchiveSpec.verdict` on EVERY pass of
+  the implementation's trace, against the revisions the harness observed in its store right before
+  that pass (terminating revisions included). -/
+namespace Pko.Drv.C08
+open Lean Pko.Model.Archive Pko.Drv.HistCommon
 
 structure Scn where
   via : String                  -- "arch" (archiveReconciler.Reconcile) | "ctrl" (objectSetReconciler.Reconcile)
@@ -28,48 +24,46 @@ structure Scn where
   fin : Bool
   deriving FromJson
 
-def toLc : String → Lifecycle
-  | "P" => .paused | "X" => .archived | _ => .active
+inductive AnyScn where
+  | one (s : Scn)
+  | hist (h : HistScn)
 
-def toRevs (l : List JRev) : List Rev :=
-  (List.range l.length).zip l |>.map fun (i, j) =>
-    { id := i, rev := j.rev, available := j.av, statusPaused := j.sp, lc := toLc j.lc, pbp := j.pbp,
-      controllerOf := j.co, objects := j.obj, hashMatch := j.hm }
+instance : FromJson AnyScn where
+  fromJson? j :=
+    match j.getObjVal? "ops" with
+    | .ok _ => AnyScn.hist <$> fromJson? j
+    | .error _ => AnyScn.one <$> fromJson? j
 
 def toInput (s : Scn) : Input :=
   { ctrl := s.via == "ctrl", revs := toRevs s.revs, hasCur := s.cur, odPaused := s.odp,
     limit := s.limit, fin := s.fin }
 
-def writeStr : Write → String
-  | .pause i => s!"p{i}" | .ppause i => s!"pp{i}" | .activate i => s!"u{i}"
-  | .archive i => s!"a{i}" | .delete i => s!"d{i}"
-
 def outStr (o : List Write × Bool) : String :=
   ",".intercalate (o.1.map writeStr) ++ (if o.2 then ";err" else ";ok")
 
-def model (s : Scn) : String := outStr (run (toInput s))
-
-def parseWrite (t : String) : Option Write :=
-  let num (k : Nat) : Option Nat := (t.drop k).toString.toNat?
-  if t.startsWith "pp" then (num 2).map .ppause
-  else if t.startsWith "p" then (num 1).map .pause
-  else if t.startsWith "u" then (num 1).map .activate
-  else if t.startsWith "a" then (num 1).map .archive
-  else if t.startsWith "d" then (num 1).map .delete
-  else none
+def model : AnyScn → String
+  | .one s => outStr (run (toInput s))
+  | .hist h => histModel h
 
 def parseOut (out : String) : Option (List Write) :=
   match out.splitOn ";" with
-  | [ws, _] => if ws.isEmpty then some [] else (ws.splitOn ",").mapM parseWrite
+  | [ws, _] => parseWrites ws
   | _ => none
 
-/-- Monitor: the property evaluated on the implementation's write list. -/
-def monitor (s : Scn) (out : String) : String :=
-  match parseOut out with
-  | none => s!"bad parse out={out.take 80}"
-  | some ws => Pko.Model.ArchiveSpec.verdict (toInput s) ws
+/-- The property on one observed pass of a history. -/
+def passVerdict (fin : Bool) (_k : Nat) (p : Pko.Model.ArchiveHist.PassObs) : String :=
+  Pko.Model.ArchiveSpec.verdict (Pko.Model.ArchiveHist.inputOf p.pre p.odPaused p.limit fin) p.writes
+
+/-- Monitor: the property evaluated on the implementation's write list(s). -/
+def monitor (s : AnyScn) (out : String) : String :=
+  match s with
+  | .one s =>
+    match parseOut out with
+    | none => s!"bad parse out={out.take 80}"
+    | some ws => Pko.Model.ArchiveSpec.verdict (toInput s) ws
+  | .hist h => judgeTrace out (passVerdict h.fin)
 
 end Pko.Drv.C08
 
 def main (args : List String) : IO UInt32 :=
-  Pko.Util.driverMain Pko.Drv.C08.Scn Pko.Drv.C08.model Pko.Drv.C08.monitor args
+  Pko.Util.driverMain Pko.Drv.C08.AnyScn Pko.Drv.C08.model Pko.Drv.C08.monitor args
